@@ -1,7 +1,7 @@
 #!/bin/bash
 # dev helper: compile model files + extraction + OCaml driver into /tmp/pnc_model
 cd /verif/coq || exit 1
-for f in Gen_consts Base Header Access Data HeaderSpec Exec Extract; do
+for f in Gen_consts Base Header Access Data Disk Move Fill HeaderSpec Exec Extract; do
   if [ ! -f $f.vo ] || [ $f.v -nt $f.vo ] || [ -n "$FORCE" ]; then
     FORCE=1
     timeout 300 coqc -Q . Pnc $f.v || exit 1
